@@ -21,6 +21,10 @@ try:
     rc_mut, out_mut = run(["/venv/bin/python", demo], cwd=wt)
     rc_base, out_base = run([os.path.join(VERIF, "tools", "baseline.py"), wt])
     det = {}
+    saved = {}
+    for c in checks:
+        ev = os.path.join(VERIF, "evidence", f"{c}.json")
+        saved[c] = open(ev).read() if os.path.exists(ev) else None
     for c in checks:
         env = dict(os.environ, VERIF_REPO=wt)
         t = time.time()
@@ -28,6 +32,11 @@ try:
         det[c] = {"exit": rcc, "violation_lines": [l for l in outc.splitlines() if l.startswith("VIOLATION")], "wall_s": round(time.time() - t, 1)}
 finally:
     run(["git", "-C", wt, "checkout", "--", "rich"])
+    # the evidence files must describe runs against /repo itself, not against a seeded tree
+    for c, text in saved.items():
+        if text is not None:
+            open(os.path.join(VERIF, "evidence", f"{c}.json"), "w").write(text)
+    run(["/venv/bin/python", os.path.join(VERIF, "harness", "tables.py")])
 ok = rc_clean == 0 and rc_mut != 0 and rc_base == 0
 d = os.path.join(VERIF, "seeded", name); os.makedirs(d, exist_ok=True)
 shutil.copy(diff, os.path.join(d, "patch.diff")); shutil.copy(demo, os.path.join(d, "demo.py"))
